@@ -178,3 +178,9 @@ func (nn *NetNode) Connect(p *ScriptPeer, st network.LatestStatus) error {
 	}
 	return fmt.Errorf("peer not registered within 10s")
 }
+
+// AddPeer hands a connection to the protocol manager without answering the protocol handshake (the caller queued whatever
+// the remote says first).
+func (nn *NetNode) AddPeer(p *ScriptPeer) {
+	subscribe.Send(subscribe.AddNewPeer, p2p.IPeer(p))
+}
